@@ -357,6 +357,11 @@ class Check:
             self.mismatches[signature] = {"property": self.pid, "signature": signature, "what": what, "case": case,
                                           "expected": expected, "observed": observed, "extra": extra or {}}
 
+    def refused(self, where, what, case=None):
+        """typeshare refuses (or fails on) an input of the property's own case space - an input the unchanged tree accepts and for
+        which layer P states required facts. The facts cannot be observed: recorded as a mismatch (one signature per place)."""
+        self.mismatch(f"{self.pid}/supported-input-refused/{where}", what, case or {}, "the facts layer P requires for this input", "run refused / failed")
+
     def model_drift(self, what):
         if len(self.drift) < 50:
             self.drift.append(what)
